@@ -106,7 +106,7 @@ def replay_gs(kernel):
         from . import c03_concrete
         m = d.get('model', {}).get('_index_model', {})
         shape = tuple(max(3, min(5, int(m.get(k, 3)))) for k in ('nx', 'ny', 'nz'))
-        return c03_concrete.check_kernel(kernel, shapes=[shape, (3, 4, 5)], seeds=(0, 1))
+        return ob.guarded(c03_concrete.check_kernel, kernel, shapes=[shape, (3, 4, 5)], seeds=(0, 1))
     return rp
 
 
@@ -287,10 +287,10 @@ def task_concrete():
     shapes = [(3, 3, 3), (3, 4, 5), (4, 3, 6)] if tier == 'quick' else \
         [s for s in itertools.product((3, 4, 5, 6), repeat=3)][::3]
     for kern in ('gauss_seidel', 'gauss_seidel_x', 'gauss_seidel_y', 'gauss_seidel_z'):
-        r = c03_concrete.check_kernel(kern, shapes=shapes, seeds=(seed,))
+        r = ob.guarded(c03_concrete.check_kernel, kern, shapes=shapes, seeds=(seed,))
         col.concrete(f'{kern}/fixed_point_lastblock_frame_on_real_function', r['reproduced'] is False, r,
                      bounded=f'{len(shapes)} shapes x nu 1..4 x real/complex x jit/py_func, rel tol 1e-8', cases=r['cases'])
-    r = c03_concrete.check_solve(ns=(1, 2, 5, 6, 11, 16, 21, 26) if tier != 'quick' else (1, 6, 11, 16), seeds=(seed, seed + 1))
+    r = ob.guarded(c03_concrete.check_solve, ns=(1, 2, 5, 6, 11, 16, 21, 26) if tier != 'quick' else (1, 6, 11, 16), seeds=(seed, seed + 1))
     col.concrete('solve/banded_system_solved_on_real_function', r['reproduced'] is False, r,
                  bounded='n in {1,6,11,16[,21,26]} x 2 seeds x real/complex, diagonally dominant, rel tol 1e-9', cases=r['cases'])
     return col.pack()
